@@ -571,6 +571,39 @@ def long_listing_parser_probe(run):
             run.failure(f"long_listing/STREAM/{route}", f"listing of {n} instruction lines ({len(text)} characters) gave {len(got)} stream instructions through the {route} route; first difference at instruction #{first} (expected address {want[first] if first < len(want) else None})", {"kind": "lx_long", "n": n, "route": route})
 
 
+def stream_context_probe(run, prefix):
+    """The stream of a listing is a function of the listing alone (C08-C10, C16): not of an earlier operation of the process -
+    one whose address range tags this very listing's branch targets, on the same file -, not of rule options that do not
+    concern a listing (style, full-match flags, sections), and it is that of the file as it is NOW (a listing of the same
+    length with other operands written to the same path). Concrete histories in one interpreter (validation)."""
+    from vlib import jasmapi
+
+    def listing(ops):
+        rows = [("401000", "e8 fb 0f 00 00", "call   " + ops[0] + " <helper>"), ("401005", "8b 4c 98 08", "mov    " + ops[1] + ",%ecx"), ("401009", "74 01", "je     40100c <main+0xc>"),
+                ("40100b", "b8 10 00 00 00", "mov    $" + ops[2] + ",%eax"), ("401010", "eb ee", "jmp    " + ops[3] + " <main>"), ("401012", "ff d0", "call   *%rax"), ("401014", "c3", "ret")]
+        return "0000000000401000 <main>:\n" + "".join(f"  {a}:\t{b:<21}\t{t}\n" for a, b, t in rows)
+
+    def stream(ops, tagged=False):
+        t = "valid_addr" if tagged else None
+        return f"401000::call,{t or ops[0]},|401005::mov,{reference_normal_form(ops[1])},%ecx,|401009::je,{t or '40100c'},|40100b::mov,{ops[2]},%eax,|401010::jmp,{t or ops[3]},|401012::call,*%rax,|401014::ret,,|"
+
+    o1, o2 = ("402000", "0x8(%rax,%rbx,4)", "0x10", "401000"), ("402abc", "0x4(%rsi,%rdi,2)", "0x20", "401004")
+    L1, L2 = listing(o1), listing(o2)
+    assert len(L1) == len(L2)
+    plain = {"pattern": ["zzzz"]}
+    ranged = {"config": {"valid_addr_range": {"min": "0x401000", "max": "0x402fff"}}, "pattern": ["zzzz"]}
+    options = [("style_intel", {"style": "intel"}), ("style_att", {"style": "att"}), ("full_match", {"mnemonics-full-match": True, "operands-full-match": True}), ("sections", {"sections": [".text", ".init"]})]
+    steps = [("first", plain, L1, stream(o1)), ("with_range", ranged, L1, stream(o1, True)), ("after_range", plain, L1, stream(o1)), ("with_range_again", ranged, L1, stream(o1, True))]
+    steps += [(nm, {"config": c, "pattern": ["zzzz"]}, L1, stream(o1)) for nm, c in options]
+    steps += [("rewritten_in_place", plain, L2, stream(o2)), ("rewritten_with_range", ranged, L2, stream(o2, True)), ("rewritten_back", plain, L1, stream(o1)), ("style_intel_after_all", {"config": {"style": "intel"}, "pattern": ["zzzz"]}, L2, stream(o2))]
+    got = jasmapi.stream_sequence([(doc, text) for _, doc, text, _ in steps])
+    run.count("traces_validated_against_impl", len(steps))
+    for (nm, doc, _, want), g in zip(steps, got):
+        if g != want:
+            run.failure(f"{prefix}/STREAM-CONTEXT/{nm}", f"history of {len(steps)} operations on one listing path, step '{nm}' (rule config {doc.get('config')}): stream {g!r}, expected {want!r}", {"kind": "lx_stream", "text": g})
+            break
+
+
 def c08_extra(ctx):
     """filter chain: only Instructions with mnemonic != 'empty' reach the stream, in order (concrete, exhaustive over kinds)"""
     from vlib import jasmapi
@@ -587,6 +620,7 @@ def c08_extra(ctx):
         "    100c:\tc3                   \tret",
     ]
     long_listing_parser_probe(run)
+    stream_context_probe(run, "filter_chain")
     stream = jasmapi.parse_listing("\n".join(lines) + "\n")
     exp = "1000::mov,%rsp,%rbp,|1003::movabs,0x88b0a1a0004a00d3,%al,|100c::ret,,|"
     run.count("traces_validated_against_impl")
@@ -766,6 +800,7 @@ def c10_extra(ctx):
     run.count("traces_validated_against_impl")
     if got != want2:
         run.failure("record_format/restarting_addresses", f"three sections whose addresses restart at 0: stream {got!r}, expected {want2!r}", {"kind": "lx_stream", "text": got})
+    stream_context_probe(run, "record_format")
     # a listing without any instruction encodes the empty list: the stream is the empty string (no stray separators)
     for nm, text in (("header_only", "\nprog:     file format elf64-x86-64\n\n"), ("empty_file", ""), ("only_dropped_lines", "Disassembly of section .data:\n\n0000000000004000 <d>:\n\t...\n    4010:\t00 00 \n")):
         got = jasmapi.file_route_stream(text)
@@ -902,6 +937,7 @@ def presentation_edit_battery(run):
 
 def c16_extra(ctx):
     run = ctx.run
+    stream_context_probe(run, "presentation")
     presentation_edit_battery(run)
     long_listing_parser_probe(run)   # incl. the listing shifted by blank lines: batch / chunk borders must not matter
     from checks import c18
